@@ -66,9 +66,9 @@ CLAIMS = {
               "vectors, v1 from the 32-bit block, v2/v3 from the 64-bit block with an ARBITRARY well-sized 32-bit block in front, extensions iff "
               "version 3) gives exactly TimeZone::new of the encoded parts; big-endian round trip; nine named rejections for arbitrary bytes; "
               "and the converse (soundness): any byte string the decoder accepts IS a file the writer produces for the decoded zone under some "
-              "layout (accepted_v1_is_written, accepted_v2_is_written). " + _K +
+              "layout (accepted_v1_is_written, accepted_v2_is_written). " + _S + _K +
               "all 894 vendored IANA files, writer-generated files, by-construction corruptions that must be rejected.",
-              "Lean 4 proof (round trip + rejections) + differential correspondence"),
+              "Lean 4 proof (round trip + rejections + soundness) + decoder source translated to Lean and proved equal to the model + differential correspondence"),
     "C09": _c("Proved: the executable reference reader accepts exactly the declarative grammar (which is unambiguous), and the code's parser = "
               "reference reader ∘ denotation ∘ the library's constructors; hence parse_complete and parse_sound; accepted strings are ASCII; footer "
               "framing. " + _S + _K +
